@@ -68,7 +68,9 @@ def make_op(g, kind):
 def main(tier, seed):
     ck = Check("C15", tier, seed)
     tf = use_impl()
-    b = ck.build_proofs("Prop_C15", extra_targets=["Run.vo", "IO.vo"])
+    refused = []
+    # the storage's I/O calls are regenerated from storages.py (symbolic execution) and proved equal to the model's scripts (proofs/IOGenP.v)
+    b = ck.build_proofs("Prop_C15", pre=lambda: run_translator("py2coq_io.py", "tinyflux/storages.py", "gen/IOGen.v", refused), extra_targets=["Run.vo", "IO.vo"])
     n = 160 if tier == "quick" else 1500
     kinds = PURE_KINDS * 2 + WRITE_KINDS
     modes = [None, None, "r+", "r", "r", "a", "w+"]
@@ -358,6 +360,7 @@ def main(tier, seed):
                       "what_no_longer_checks": "I/O-script correspondence: IO.v plan/script of the operation (theorems C15_*) vs what the implementation left on disk",
                       "history": h, "op": o, "auto_index": a, "pure_kind": p, "file_decodes_to": after}, no_input=True)
     ck.cov = {
+        "translator": dict(IO_TRANSLATOR_COV, refused=refused),
         "obligations": b["obligations"], "discharged": b["discharged"],
         "checker_cmd": "make -C /verif/coq Prop_C15.vo IO.vo Run.vo; Print Assumptions per theorem; plans and scripts evaluated with vm_compute",
         "trusted_base": TRUSTED_BASE_COMMON + [
